@@ -615,8 +615,7 @@ Proof.
         -- rewrite F1, Iarr, map_app. cbn [map fst]. now rewrite !app_nil_r.
         -- intros i x Hi. apply in_app_or in Hi as [Hi|[Hi|[]]]; [now apply F4|].
            injection Hi as <- <-. now rewrite F3.
-        -- intros i st [].
-        -- rewrite ai_response, ai_spawned, F7. exact Ipend.
+        -- rewrite ai_response, ai_spawned, F7, Hr. exact Ipend.
         -- cbn [length]. lia.
         -- rewrite (ai_out _ _ id), Iout, flat_map_app. cbn [flat_map]. now rewrite app_nil_r.
         -- rewrite F8, ai_error. intros Hne. apply andb_true_iff in Hne as [Hne1 Hne2].
